@@ -7,7 +7,7 @@ import checks_txn, checks_cache, checks_pure, checks_sess, checks_gates, checks_
 def replay_txn(prop, path):
     case = json.load(open(path))["case"]
     vh = build_vh()
-    if "api_case" in case:
+    if "api_case" in case or "api_random" in case:
         import checks_apiops
         got, trace = checks_apiops.confirm_fn(vh)(case)
     else:
@@ -78,7 +78,7 @@ def replay_c08(prop, path):
     vh = build_vh()
     case = r["case"]
     import checks_apiops
-    fn = (checks_apiops.confirm_fn(vh) if "api_case" in case else
+    fn = (checks_apiops.confirm_fn(vh) if ("api_case" in case or "api_random" in case) else
           checks_api.cond_api_confirm(vh) if case["key"].get("via", "").startswith("api") else checks_pure.cond_confirm(vh))
     got, _ = fn(case)
     if got:
